@@ -60,6 +60,7 @@ impl<'i, 't, 'a> StepParser<'i, 't, 'a> {
         loop {
             // the position must be taken after any comment in front of the token
             let position = self.position();
+            let start = self.parser.position();
             let token = self
                 .parser
                 .next_including_whitespace_and_comments()
@@ -67,7 +68,12 @@ impl<'i, 't, 'a> StepParser<'i, 't, 'a> {
             if let Token::Comment(_) = token {
                 continue;
             }
-            return Ok(StepToken { token, position });
+            let src = self.parser.slice_from(start);
+            return Ok(StepToken {
+                token,
+                position,
+                src,
+            });
         }
     }
 
@@ -84,6 +90,8 @@ impl<'i, 't, 'a> StepParser<'i, 't, 'a> {
 pub(crate) struct StepToken<'i> {
     pub(crate) token: Token<'i>,
     pub(crate) position: error::Position,
+    /// The source text the token was read from (empty for a token that was not read from the source).
+    pub(crate) src: &'i str,
 }
 
 impl<'i> Deref for StepToken<'i> {
@@ -96,11 +104,19 @@ impl<'i> Deref for StepToken<'i> {
 
 impl<'i> StepToken<'i> {
     pub(crate) fn wrap(token: Token<'i>, position: error::Position) -> Self {
-        Self { token, position }
+        Self {
+            token,
+            position,
+            src: "",
+        }
     }
 
     pub(crate) fn wrap_at(token: Token<'i>, other: &Self) -> Self {
         let position = other.position.clone();
-        Self { token, position }
+        Self {
+            token,
+            position,
+            src: "",
+        }
     }
 }
